@@ -101,7 +101,9 @@ def ms_desc(draw):
                 joining=draw(st.booleans()),
                 # user-supplied section meshes given in frames of their own: the unification aligns the leading edges of
                 # neighbouring sections (shift_uni_mesh, default True), so a translation per section is admissible
-                offsets=[[draw(S.fl(-1.0, 1.0, 0.0)), draw(S.fl(-0.5, 0.5, 0.0)), draw(S.fl(-0.5, 0.5, 0.0))] for _ in range(n)])
+                # (the last section is the one the others are aligned to: on a symmetric surface its root edge stays on y = 0)
+                offsets=[[draw(S.fl(-1.0, 1.0, 0.0)), 0.0 if (sym and i == n - 1) else draw(S.fl(-0.5, 0.5, 0.0)),
+                          draw(S.fl(-0.5, 0.5, 0.0))] for i in range(n)])
 
 
 @st.composite
